@@ -1,0 +1,187 @@
+//go:build verif
+
+package fastq
+
+// Bounded stand-ins for the round-trip and layout clauses of C01/C04. Only compiled with -tags verif.
+
+import (
+	"bytes"
+	"fmt"
+	"strings"
+	"testing"
+
+	"github.com/biogo/biogo/alphabet"
+	"github.com/biogo/biogo/seq/linear"
+)
+
+type verifRec struct {
+	name, desc, letters string
+	quals               []alphabet.Qphred
+}
+
+func verifRange(e alphabet.Encoding) (lo, hi alphabet.Qphred) {
+	switch e {
+	case alphabet.Illumina1_3:
+		return 0, 62
+	case alphabet.Illumina1_5:
+		return 2, 62
+	}
+	return 0, 93
+}
+
+func verifWrite(t *testing.T, recs []verifRec, e alphabet.Encoding, qid bool) []byte {
+	var buf bytes.Buffer
+	w := NewWriter(&buf)
+	w.QID = qid
+	for _, r := range recs {
+		ql := make([]alphabet.QLetter, len(r.letters))
+		for i := range ql {
+			ql[i] = alphabet.QLetter{L: alphabet.Letter(r.letters[i]), Q: r.quals[i]}
+		}
+		s := linear.NewQSeq(r.name, ql, alphabet.DNA, e)
+		s.Desc = r.desc
+		before := buf.Len()
+		n, err := w.Write(s)
+		if err != nil {
+			t.Fatalf("write: %v", err)
+		}
+		if n != buf.Len()-before {
+			t.Fatalf("Write reported %d bytes, emitted %d", n, buf.Len()-before)
+		}
+	}
+	return buf.Bytes()
+}
+
+func verifRead(t *testing.T, data []byte, e alphabet.Encoding) ([]verifRec, error) {
+	r := NewReader(bytes.NewReader(data), linear.NewQSeq("", nil, alphabet.DNA, e))
+	var out []verifRec
+	for i := 0; i < 1000; i++ {
+		s, err := r.Read()
+		if err != nil {
+			if s != nil {
+				t.Fatalf("record together with error %v", err)
+			}
+			return out, err
+		}
+		q := s.(*linear.QSeq)
+		rec := verifRec{name: q.ID, desc: q.Desc}
+		for _, ql := range q.Seq {
+			rec.letters += string(rune(ql.L))
+			rec.quals = append(rec.quals, ql.Q)
+		}
+		out = append(out, rec)
+	}
+	t.Fatalf("reader did not reach EOF")
+	return nil, nil
+}
+
+func verifSame(a, b []verifRec) bool {
+	if len(a) != len(b) {
+		return false
+	}
+	for i := range a {
+		if a[i].name != b[i].name || a[i].desc != b[i].desc || a[i].letters != b[i].letters || len(a[i].quals) != len(b[i].quals) {
+			return false
+		}
+		for j := range a[i].quals {
+			if a[i].quals[j] != b[i].quals[j] {
+				return false
+			}
+		}
+	}
+	return true
+}
+
+func verifRecords(e alphabet.Encoding) [][]verifRec {
+	lo, hi := verifRange(e)
+	names := []string{"a", "@b", "+c", ">"}
+	descs := []string{"", "d", "d e", "@ + >"}
+	mk := func(i int, letters string) verifRec {
+		q := make([]alphabet.Qphred, len(letters))
+		for j := range q {
+			switch (i + j) % 4 {
+			case 0:
+				q[j] = lo
+			case 1:
+				q[j] = hi
+			case 2:
+				q[j] = lo + 31 // '@' under Sanger offset, '_' under +64
+			default:
+				q[j] = lo + 10 // '+' under Sanger offset
+			}
+		}
+		return verifRec{names[i%4], descs[(i/2)%4], letters, q}
+	}
+	var single []verifRec
+	for i, l := range []string{"a", "ac", "acg", "acgt", "ccccc", strings.Repeat("acgt", 1024), strings.Repeat("a", 4097), strings.Repeat("gt", 4100)} {
+		single = append(single, mk(i, l))
+	}
+	out := [][]verifRec{nil}
+	for i, r := range single {
+		out = append(out, []verifRec{r})
+		if i > 0 {
+			out = append(out, []verifRec{single[i-1], r, single[0]})
+		}
+	}
+	return out
+}
+
+var verifEncodings = []alphabet.Encoding{alphabet.Sanger, alphabet.Illumina1_3, alphabet.Illumina1_5, alphabet.Illumina1_8, alphabet.Illumina1_9}
+
+// TestVerifBounded_C01_FastqRoundTrip: both '+' line styles, every Phred-offset encoding, scores at both ends of the printable range.
+func TestVerifBounded_C01_FastqRoundTrip(t *testing.T) {
+	cases, nontrivial := 0, 0
+	for _, e := range verifEncodings {
+		for _, recs := range verifRecords(e) {
+			for _, qid := range []bool{false, true} {
+				cases++
+				if len(recs) > 0 {
+					nontrivial++
+				}
+				got, _ := verifRead(t, verifWrite(t, recs, e, qid), e)
+				if !verifSame(got, recs) {
+					t.Fatalf("encoding %d qid=%v: wrote %d records, read %d: %.120v vs %.120v", e, qid, len(recs), len(got), recs, got)
+				}
+			}
+		}
+	}
+	fmt.Printf("BOUNDED name=C01.fastq-roundtrip cases=%d nontrivial=%d exhaustive=true domain=%q\n", cases, nontrivial, "0..3 records, names over {a,@b,+c,>}, 4 descriptions, lengths 1..5, 4096, 4097, 8200, quality scores at both ends of the range and at '@'/'+', 5 encodings x both + line styles")
+}
+
+// TestVerifBounded_C04_FastqLayout: CRLF, blank lines between records, trailing blanks, missing final newline.
+func TestVerifBounded_C04_FastqLayout(t *testing.T) {
+	cases, nontrivial := 0, 0
+	for _, e := range verifEncodings {
+		for _, recs := range verifRecords(e) {
+			if len(recs) == 0 {
+				continue
+			}
+			for _, qid := range []bool{false, true} {
+				base := string(verifWrite(t, recs, e, qid))
+				lines := strings.Split(strings.TrimSuffix(base, "\n"), "\n")
+				var blankBetween []string
+				for i, l := range lines {
+					if i > 0 && i%4 == 0 {
+						blankBetween = append(blankBetween, "")
+					}
+					blankBetween = append(blankBetween, l)
+				}
+				variants := []string{
+					strings.Join(lines, "\n"),
+					strings.Join(lines, "\r\n") + "\r\n",
+					strings.Join(lines, " \t\n") + " \n",
+					strings.Join(blankBetween, "\n") + "\n\n",
+				}
+				for vi, v := range variants {
+					cases++
+					nontrivial++
+					got, _ := verifRead(t, []byte(v), e)
+					if !verifSame(got, recs) {
+						t.Fatalf("encoding %d qid=%v layout variant %d changes the records: want %d got %d: %.100v vs %.100v", e, qid, vi, len(recs), len(got), recs, got)
+					}
+				}
+			}
+		}
+	}
+	fmt.Printf("BOUNDED name=C04.fastq-layout cases=%d nontrivial=%d exhaustive=true domain=%q\n", cases, nontrivial, "records of C01.fastq-roundtrip x {no final LF, CRLF, trailing blanks, blank lines between records}")
+}
